@@ -213,7 +213,7 @@ def run(env):
         if i % env.nshards != env.shard:
             continue
         t = build(gen_types.Gen(rng, max_depth=2, feats=FEATS))
-        if props_constraint_on_object(t) or label == "dependent-required":
+        if props_constraint_on_object(t) or label.startswith("dependent-required"):
             continue  # (same abstention as below; dependent_required is an input-side rule: not generated for C07)
         prog = Program(t)
         try:
